@@ -264,3 +264,175 @@ Section SecDoc.
         constructor; [|constructor]. unfold d_sec. cbn [fst]. rewrite Exc. cbn [fst]. lia. }
       split; [|auto]. rewrite map_app, concat_app. cbn [map concat d_out snd]. rewrite app_nil_r, Eout. unfold hdr_out, oc. rewrite <- !app_assoc. reflexivity.
   Qed.
+
+  (* ---- a header ------------------------------------------------------------------------------------------------- *)
+  Lemma Forall_pop kp ppath k : pop_key kp = Some (ppath, k) -> Forall K kp -> K k /\ Forall K ppath.
+  Proof.
+    intros Ep HK. apply DefsEquivSim.pop_key_some in Ep. subst kp. apply Forall_app in HK as [H1 H2]. inversion H2; subst. auto.
+  Qed.
+
+  Lemma sinv_header arr st i out i0 pend kp j jt Y w c st1 jl w' i1 :
+    sinv st i out i0 pend -> isrc s i ->
+    on_header arr st kp (pos j, pos jt) (pos i, pos j) = COk st1 ->
+    hdr_at s (pos i) arr Y -> Forall K kp -> kp <> [] -> isrc s j -> splits j (w ++ c) jt -> ws_tok w -> opt_comment c ->
+    isrc s jl -> splits jl w' i1 ->
+    sinv (on_ws st1 (pos jl, pos i1)) i1 (out ++ ncr pend ++ (hdr_open arr ++ Y ++ hdr_close arr) ++ (w ++ c) ++ [x0a]) jl w'.
+  Proof.
+    intros HI Hi Hh Hat HK Hne Hj Swc Hw Hc Hjl Sw'.
+    unfold on_header in Hh. destruct kp as [|k0 kp0] eqn:Ekp; [congruence|]. rewrite <- Ekp in *. clear Ekp k0 kp0.
+    destruct (finalize_table st) as [stf| |] eqn:Ef; try discriminate.
+    destruct (sinv_finalize st i out i0 pend stf HI Ef) as (done & Estf & Hur & Hdec & Hpos & Hperm & Hdone & Hsort & Hlt & Eout & Htr & Hi0 & Sp).
+    unfold take_trailing in Hh. cbv zeta beta iota in Hh.
+    set (st2 := mkState (st_root stf) None (st_position stf) (st_current stf) (st_is_array stf) (st_path stf)) in *.
+    set (lead := match st_trailing stf with Some sp => raw_with_span sp | None => REmpty end) in *.
+    set (trail := raw_with_span (pos j, pos jt)) in *.
+    assert (Elead : raw_encode (traw s lead) [] = ncr pend).
+    { unfold lead. rewrite Estf. cbn [DefsEquivSim.finalized st_trailing]. rewrite Htr. apply (span_prints s i0 pend i [] Hi0 Sp). }
+    assert (Etrail : raw_encode (traw s trail) [] = w ++ c).
+    { unfold trail. rewrite (span_prints s j (w ++ c) jt [] Hj Swc), ncr_app, (ncr_ws w Hw), (ncr_opt_comment c Hc). reflexivity. }
+    assert (Ecur2 : t_items (st_current st2) = []) by (unfold st2; rewrite Estf; reflexivity).
+    assert (Epos2 : st_position st2 = st_position st) by (unfold st2; rewrite Estf; reflexivity).
+    destruct (pop_key_total kp Hne) as (ppath & k & Ep). destruct (Forall_pop kp ppath k Ep HK) as [Hk Hpp].
+    assert (Hlt' : Forall (fun d : dsec => (fst (d_sec d) < st_position st2 + 1)%N) done) by (rewrite Epos2; exact Hlt).
+    apply (si_hdr _ _ _ _ _ done arr lead trail (pos i) Y [] []).
+    2:{ unfold hdr_out. rewrite Eout, Elead, Etrail. cbn [concat]. rewrite app_nil_r, <- !app_assoc. reflexivity. }
+    destruct arr.
+    - (* [[array of tables]] *)
+      destruct (start_array_secs K st2 kp (decor_new lead trail) (pos i, pos j) st1 ppath k Hh Ep Hur Hpp Hk) as (Est1 & Hfr & Hur1 & Hperm1).
+      exists ppath, k, [], (pos j). rewrite Est1. unfold open_table, on_ws. cbn [st_root st_path st_current st_trailing st_position st_is_array].
+      split; [exact Ep|]. split; [exact Hk|]. split; [exact Hpp|]. split; [reflexivity|].
+      split; [rewrite Ecur2; reflexivity|].
+      split; [reflexivity|]. split; [constructor|]. split; [constructor|]. split; [exact Hur1|].
+      destruct Hfr as (Fd & _ & _ & Fp & _). split; [rewrite Fd; exact Hdec|]. split; [rewrite Fp; exact Hpos|].
+      split; [discriminate|]. split; [cbn [PI flat_map]; rewrite app_nil_r, Hperm1; exact Hperm|].
+      split; [exact Hdone|]. split; [exact Hsort|]. split; [exact Hlt'|]. split; [exact Hat|]. split; [constructor|]. auto.
+    - (* [table] *)
+      destruct (start_table_secs K st2 kp (decor_new lead trail) (pos i, pos j) st1 ppath k Hh Ep Hur Hpp Ecur2)
+        as (T0 & Est1 & HvT & HuT & HnT & Hfr & Hur1 & Hperm1 & Habs).
+      exists ppath, k, T0, (pos j). rewrite Est1. unfold open_table, on_ws. cbn [st_root st_path st_current st_trailing st_position st_is_array t_items].
+      split; [exact Ep|]. split; [exact Hk|]. split; [exact Hpp|]. split; [reflexivity|].
+      split; [rewrite app_nil_r; reflexivity|].
+      split; [exact HvT|]. split; [exact HuT|]. split; [rewrite app_nil_r; exact HnT|]. split; [exact Hur1|].
+      destruct Hfr as (Fd & _ & _ & Fp & _). split; [rewrite Fd; exact Hdec|]. split; [rewrite Fp; exact Hpos|].
+      split; [intros _; exact Habs|]. split; [rewrite Hperm1; exact Hperm|].
+      split; [exact Hdone|]. split; [exact Hsort|]. split; [exact Hlt'|]. split; [exact Hat|]. split; [constructor|]. auto.
+  Qed.
+
+  (* ---- one iteration of the loop --------------------------------------------------------------------------------- *)
+  Definition sec_stmt (st : astmt) : bool := match st with SKeyVal p _ => Nat.eqb (length p) 1 | _ => true end.
+  Definition secl (l : list astmt) : bool := forallb sec_stmt l.
+
+  Definition step2 (st : pstate) (i : input) (st1 : pstate) (i1 : input) (l : list astmt) (o : bytes) : Prop :=
+    forall out i0 pend, sinv st i out i0 pend -> secl l = true ->
+      exists out' i0' pend', sinv st1 i1 out' i0' pend' /\ out' ++ ncr pend' = out ++ ncr pend ++ o.
+
+  Lemma doc_line_render2 st i st1 i1 : isrc s i -> doc_line st i = Ok st1 i1 ->
+    exists w0 e l o le w,
+      ws_tok w0 /\ item_text e l o /\ ws_tok w /\ splits i (w0 ++ e ++ le ++ w) i1
+      /\ (newline_tok le \/ (le = [] /\ w = [] /\ rest i1 = [])) /\ isrc s i1
+      /\ step2 st i st1 i1 l (w0 ++ o ++ le_out l le ++ w).
+  Proof.
+    rewrite doc_line_unfold. intros Hi H. apply bind_inv in H as (b & j & H1 & H). apply peek_inv in H1 as [-> _].
+    apply bind_inv in H as (st0 & j1 & H2 & H3). apply parse_ws_exact in H3 as (w & Hw & Sw & ->).
+    assert (Hend : forall le, lend le (rest j1) -> newline_tok le \/ (le = [] /\ w = [] /\ rest i1 = [])).
+    { intros le [Hn | [-> Hr]]; [left; exact Hn|right]. destruct Sw as [R E]. rewrite Hr in R.
+      destruct w; [|discriminate]. cbn [app] in R. auto. }
+    unfold line_p in H2.
+    destruct (byte_eqb b COMMENT_START_SYMBOL).
+    { (* a comment line *)
+      apply cut_err_inv in H2. unfold parse_comment in H2. apply pmap_inv in H2 as (sp & H2 & ->).
+      pose proof H2 as H2'. apply span_inv in H2' as (u0 & _ & ->).
+      apply span_inv in H2 as (u & H2 & _). apply bind_inv in H2 as (x & k1 & F1 & F2).
+      apply comment_sound in F1 as (c & Hc & S1 & _). apply context_inv, line_ending_sound in F2 as (le & S2 & Hl).
+      pose proof (splits_trans _ _ _ _ _ S1 S2) as S12.
+      destruct (isrc_splits s i (c ++ le) j1 Hi S12) as [Hj1 _]. destruct (isrc_splits s j1 w i1 Hj1 Sw) as [Hi1 _].
+      exists [], c, [], c, le, w. split; [reflexivity|]. split; [apply itx_comment, Hc|]. split; [exact Hw|].
+      split; [pose proof (splits_trans _ _ _ _ _ S12 Sw) as S; rewrite <- !app_assoc in S; exact S|].
+      split; [apply Hend, Hl|]. split; [exact Hi1|].
+      intros out i0 pend HI _. exists out, i0, (pend ++ (c ++ le) ++ w). split; [apply sinv_trivia; assumption|].
+      rewrite !ncr_app, (ncr_comment c Hc), (ncr_ws w Hw). cbn [app].
+      assert (El : ncr le = le_out [] le) by (destruct Hl as [[-> | ->] | [-> _]]; reflexivity).
+      rewrite El, <- !app_assoc. reflexivity. }
+    destruct (byte_eqb b STD_TABLE_OPEN).
+    { (* a table header *)
+      apply cut_err_inv, table_inv in H2 as (arr & H2). rewrite header_unfold in H2.
+      apply try_map_inv in H2 as ([[kp sp] tr] & H2 & Hst).
+      pose proof H2 as H2'. apply header_text_sound in H2' as (t0 & p & w1 & c0 & le0 & _ & _ & _ & Sp0 & _ & Ekeys & _).
+      destruct (header_text_render arr i kp sp tr j1 Hi H2)
+        as (jh & Y & wt & c & jt & le & -> & Sh & Hat & HK & Hne & Htok & Hwt & Hc & Swc & -> & Hjh & Sle & Hl & Hj1).
+      destruct (isrc_splits s j1 w i1 Hj1 Sw) as [Hi1 _].
+      exists [], ((hdr_open arr ++ Y ++ hdr_close arr) ++ wt ++ c), [if arr then SArrHeader (map k_key kp) else SHeader (map k_key kp)],
+             ((hdr_open arr ++ Y ++ hdr_close arr) ++ wt ++ c), le, w.
+      split; [reflexivity|]. split; [apply header_item_text; assumption|]. split; [exact Hw|].
+      split; [pose proof (splits_trans _ _ _ _ _ Sh (splits_trans _ _ _ _ _ Swc (splits_trans _ _ _ _ _ Sle Sw))) as S; cbn [app]; rewrite <- ?app_assoc; rewrite <- ?app_assoc in S; exact S|].
+      split; [apply Hend, Hl|]. split; [exact Hi1|].
+      intros out i0 pend HI _.
+      destruct (on_header arr st kp (pos jh, pos jt) (pos i, pos jh)) as [st'| |] eqn:Eo; try discriminate. cbn [lift_state] in Hst. injection Hst as <-.
+      eexists _, j1, w. split; [apply (sinv_header arr st i out i0 pend kp jh jt Y wt c st' j1 w i1); assumption|].
+      rewrite (ncr_ws w Hw).
+      assert (El : le_out [if arr then SArrHeader (map k_key kp) else SHeader (map k_key kp)] le = [x0a])
+        by (destruct arr; destruct Hl as [[-> | ->] | [-> _]]; reflexivity).
+      rewrite El. cbn [app]. rewrite <- !app_assoc. reflexivity. }
+    destruct (byte_eqb b LF || byte_eqb b CR).
+    { (* a blank line *)
+      unfold parse_newline in H2. apply pmap_inv in H2 as (sp & H2 & ->). pose proof H2 as H2'. apply span_inv in H2' as (u0 & _ & ->).
+      apply span_inv in H2 as (u & H2 & _). apply newline_sound in H2 as (nl & Hn & S1).
+      destruct (isrc_splits s i nl j1 Hi S1) as [Hj1 _]. destruct (isrc_splits s j1 w i1 Hj1 Sw) as [Hi1 _].
+      exists [], [], [], [], nl, w. split; [reflexivity|]. split; [apply itx_blank|]. split; [exact Hw|].
+      split; [exact (splits_trans _ _ _ _ _ S1 Sw)|]. split; [left; exact Hn|]. split; [exact Hi1|].
+      intros out i0 pend HI _. exists out, i0, (pend ++ nl ++ w). split; [apply sinv_trivia; assumption|].
+      rewrite !ncr_app, (ncr_newline nl Hn), (ncr_ws w Hw), (newline_le_out [] nl Hn). cbn [app]. rewrite <- ?app_assoc. reflexivity. }
+    (* key = value *)
+    apply cut_err_inv in H2. unfold keyval in H2. apply try_map_inv in H2 as (x & H2 & Hst).
+    destruct (parse_keyval_render s i x j1 Hi H2)
+      as (j0 & w0 & kt & p & w1 & w2 & t & a & o & wt & c & le & Hw0 & Hkt & Hw1 & Hw2 & Ht & Hwt & Hc & S0 & Sp & Hl & Hj1 & Hflat).
+    destruct (isrc_splits s j1 w i1 Hj1 Sw) as [Hi1 _].
+    exists w0, ((kt ++ w1 ++ [x3d] ++ w2 ++ t) ++ wt ++ c), [SKeyVal p a], ((kt ++ w1 ++ [x3d] ++ w2 ++ o) ++ wt ++ c), le, w.
+    split; [exact Hw0|]. split; [apply itx_keyval; assumption|]. split; [exact Hw|].
+    split; [pose proof (splits_trans _ _ _ _ _ Sp Sw) as S; rewrite <- !app_assoc in *; exact S|].
+    split; [apply Hend, Hl|]. split; [exact Hi1|].
+    intros out i0 pend HI Hf. cbn [secl forallb sec_stmt] in Hf. rewrite andb_true_r in Hf.
+    apply Nat.eqb_eq in Hf. destruct (Hflat Hf) as (k & v & -> & Epre & Hline).
+    destruct (on_keyval_sp st [] k (IValue v)) as [st'| |] eqn:Eo; try discriminate. cbn [lift_state] in Hst. injection Hst as <-.
+    eexists _, j1, w. split.
+    - apply (sinv_keyval st i out i0 pend k v st' j0 w0 ((kt ++ w1 ++ [x3d] ++ w2 ++ o) ++ wt ++ c) j1 w i1 HI Eo S0 Hw0 Epre); [|exact Hj1|exact Sw].
+      intros Hv P z. rewrite (Hline Hv P z). reflexivity.
+    - rewrite (ncr_ws w Hw).
+      assert (El : le_out [SKeyVal p a] le = [x0a]) by (destruct Hl as [[-> | ->] | [-> _]]; reflexivity).
+      rewrite El. rewrite <- !app_assoc. reflexivity.
+  Qed.
+
+  (* ---- the loop ------------------------------------------------------------------------------------------------- *)
+  Lemma step2_nil st i : step2 st i st i [] [].
+  Proof. intros out i0 pend HI _. exists out, i0, pend. split; [exact HI|]. rewrite !app_nil_r. reflexivity. Qed.
+
+  Lemma step2_trans st i st1 i1 st2 i2 l1 o1 l2 o2 :
+    step2 st i st1 i1 l1 o1 -> step2 st1 i1 st2 i2 l2 o2 -> step2 st i st2 i2 (l1 ++ l2) (o1 ++ o2).
+  Proof.
+    intros H1 H2 out i0 pend HI Hf. unfold secl in Hf. rewrite forallb_app in Hf. apply andb_true_iff in Hf as [Hf1 Hf2].
+    destruct (H1 out i0 pend HI Hf1) as (out1 & i01 & pend1 & HI1 & E1).
+    destruct (H2 out1 i01 pend1 HI1 Hf2) as (out2 & i02 & pend2 & HI2 & E2).
+    exists out2, i02, pend2. split; [exact HI2|]. rewrite E2, (app_assoc out1), E1, <- !app_assoc. reflexivity.
+  Qed.
+
+  Lemma doc_loop_render2 : forall fuel st i st' i', isrc s i -> doc_loop fuel st i = Ok st' i' ->
+    exists t l o, splits i t i' /\ lines_text t l o /\ isrc s i' /\ step2 st i st' i' l o.
+  Proof.
+    induction fuel as [|f IH]; intros st i st' i' Hi H; [discriminate|]. cbn [doc_loop] in H.
+    destruct (doc_line st i) as [st1 i1|e j|e j|x] eqn:E; try discriminate.
+    - destruct (Nat.eqb (length (rest i1)) (length (rest i))); [discriminate|].
+      destruct (doc_line_render2 st i st1 i1 Hi E) as (w0 & e & l & o & le & w & Hw0 & He & Hw & Sp & Hle & Hi1 & Hok).
+      destruct Hle as [Hn | (-> & -> & R1)].
+      + destruct (IH st1 i1 st' i' Hi1 H) as (t & l' & o' & St & Hlt & Hi' & Hok').
+        exists ((w0 ++ e ++ le ++ w) ++ t), (l ++ l'), ((w0 ++ o ++ le_out l le ++ w) ++ o').
+        split; [exact (splits_trans _ _ _ _ _ Sp St)|]. split; [|split; [exact Hi'|exact (step2_trans _ _ _ _ _ _ _ _ _ _ Hok Hok')]].
+        rewrite (newline_le_out l le Hn).
+        replace ((w0 ++ e ++ le ++ w) ++ t) with (w0 ++ e ++ le ++ w ++ t) by (rewrite <- !app_assoc; reflexivity).
+        replace ((w0 ++ o ++ [x0a] ++ w) ++ o') with (w0 ++ o ++ [x0a] ++ w ++ o') by (rewrite <- !app_assoc; reflexivity).
+        apply ltx_cons; assumption.
+      + destruct (doc_loop_at_end f st1 i1 st' i' R1 H) as [-> ->].
+        exists (w0 ++ e), l, (w0 ++ o ++ stmt_lf l). rewrite !app_nil_r in Sp. split; [exact Sp|]. split; [apply ltx_last; assumption|].
+        split; [exact Hi1|]. cbn [le_out] in Hok. rewrite app_nil_r in Hok. exact Hok.
+    - injection H as <- <-. exists [], [], []. split; [apply splits_nil|]. split; [apply ltx_nil|]. split; [exact Hi|apply step2_nil].
+  Qed.
+End SecDoc.
